@@ -654,7 +654,7 @@ def translate_aes_open(pe):
 _BASELINE_SNIPPET = r"""
 import sys, json, logging
 logging.disable(logging.CRITICAL)
-sys.path.insert(0, '/verif/tools'); sys.path.insert(0, '/verif/tools/props')
+sys.path.insert(0, %r); sys.path.insert(0, %r)
 import c15
 out = {}
 for p in json.loads(sys.stdin.read()):
@@ -669,7 +669,7 @@ def isolated_baselines(paths, per_proc=1):
     chunks = [paths[i:i + per_proc] for i in range(0, len(paths), per_proc)]
 
     def one(chunk):
-        p = subprocess.run([sys.executable, "-c", _BASELINE_SNIPPET], input=json.dumps(chunk), text=True,
+        p = subprocess.run([sys.executable, "-c", _BASELINE_SNIPPET % (str(common.VERIF / "tools"), str(common.VERIF / "tools" / "props"))], input=json.dumps(chunk), text=True,
                            capture_output=True, timeout=300, env=dict(os.environ))
         m = re.search(r"RESULT(.*)", p.stdout)
         if not m:
